@@ -151,7 +151,8 @@ def run_path(hname, params, prefix, validate=False):
 
 # byte patterns the diversified sampling of an unencoded path pushes input bytes towards: blanks, line ends, quotes, '=', '/', '<', '>',
 # and multi-byte characters (U+3000 full-width space, U+00E9, U+FEFF, U+013C whose low byte is '<', U+305B whose low byte is '[', U+1F600)
-PATTERNS = [[32], [9], [10], [13], [11], [12], [0xC2, 0xA0], [0xF0, 0x9F, 0x8E, 0x89], [34], [39], [61], [47], [60], [62], [0], [0xE3, 0x80, 0x80], [0xC3, 0xA9], [0xEF, 0xBB, 0xBF], [0xC4, 0xBC], [0xE3, 0x81, 0x9B],
+PATTERNS = [[32], [9], [10], [13], [11], [12], [0xC2, 0xA0], [0xF0, 0x9F, 0x8E, 0x89], [0xC4, 0xB0], [0xE2, 0x84, 0xAA], [0xE1, 0xBA, 0x9E],   # (İ, Kelvin sign, ẞ: case mapping changes their byte length)
+            [34], [39], [61], [47], [60], [62], [0], [0xE3, 0x80, 0x80], [0xC3, 0xA9], [0xEF, 0xBB, 0xBF], [0xC4, 0xBC], [0xE3, 0x81, 0x9B],
             [0xF0, 0x9F, 0x98, 0x80], [32, 32], [10, 10], [9, 32]]
 
 
